@@ -13,6 +13,10 @@
 #include "internal.h"
 #include "impl/ctx_impl.h"
 #include "verif.h"
+#ifdef C20_TYPED_ASYNC_SERVICE
+#include "net_async.h"
+#include "impl/net_async_impl.h"
+#endif
 #ifndef C20_ALLOC_MAX
 #define C20_ALLOC_MAX 64
 #endif
@@ -26,8 +30,14 @@ int VERIF_fault_hit;
 
 void *KSI_malloc(size_t size) {
 #ifndef REPLAY
-	__CPROVER_assert(size <= C20_ALLOC_MAX, "C20 allocator model: request fits the constant object size");
 	VERIF_alloc_count++;
+#ifdef C20_TYPED_ASYNC_SERVICE
+	/* net.c allocates the service object with KSI_malloc(sizeof(KSI_AsyncService)) instead of KSI_new: give CBMC the
+	 * typed object (its function-pointer fields must stay visible to constant propagation).  Only used by h4_async,
+	 * where every requested size is a constant, so this test is decided during symbolic execution. */
+	if (size == sizeof(KSI_AsyncService)) return malloc(sizeof(KSI_AsyncService));
+#endif
+	__CPROVER_assert(size <= C20_ALLOC_MAX, "C20 allocator model: request fits the constant object size");
 	return malloc(C20_ALLOC_MAX);
 #else
 	return malloc(size);
